@@ -45,6 +45,7 @@ type Result struct {
 	Counters     map[string]int    `json:"counters"`
 	Violations   []Violation       `json:"violations"`
 	Cross        map[string]int    `json:"cross_observations"` // other-property monitor hits during this workload
+	CrossSamples []Violation       `json:"cross_samples,omitempty"`
 	Inconclusive []string          `json:"inconclusive"`
 	Notes        map[string]string `json:"notes,omitempty"`
 	violSeen     map[string]int
@@ -85,6 +86,9 @@ func (r *Result) Violate(v Violation) {
 	if v.Property != r.Property {
 		// another property's universal monitor fired during this workload
 		r.Cross[v.Key()]++
+		if r.Cross[v.Key()] == 1 && len(r.CrossSamples) < 8 {
+			r.CrossSamples = append(r.CrossSamples, v)
+		}
 		return
 	}
 	k := v.Key()
@@ -123,6 +127,11 @@ func (r *Result) Merge(o *Result) {
 	}
 	for _, s := range o.Samples {
 		r.Sample(s)
+	}
+	for _, v := range o.CrossSamples {
+		if len(r.CrossSamples) < 8 {
+			r.CrossSamples = append(r.CrossSamples, v)
+		}
 	}
 	for _, v := range o.Violations {
 		k := v.Key()
